@@ -107,7 +107,31 @@ Atoms == <<
   DL("[1, 2, 3]", "list", TRUE, FALSE, <<E("int", TRUE, TRUE), E("int", TRUE, TRUE), E("int", TRUE, TRUE)>>), \* 89
   DL("('a', 'b')", "tuple", TRUE, FALSE, <<E("str", TRUE, FALSE), E("str", TRUE, FALSE)>>), \* 90
   DL("[T[1], T[2]]", "list", TRUE, FALSE, <<E("record", FALSE, FALSE), E("record", FALSE, FALSE)>>), \* 91
-  DL("[T[[1]], T[[2, 1]]]", "list", TRUE, FALSE, <<E("recordset", FALSE, FALSE), E("recordset", FALSE, FALSE)>>) \* 92
+  DL("[T[[1]], T[[2, 1]]]", "list", TRUE, FALSE, <<E("recordset", FALSE, FALSE), E("recordset", FALSE, FALSE)>>),   \* 92
+  \* the remaining objects of fn_convert.OBJECTS (all of kind "other")
+  D("<badstr>", "other", FALSE, FALSE),                                        \* 93
+  D("<bytearray>", "other", FALSE, FALSE),                                     \* 94
+  D("<censored>", "other", FALSE, FALSE),                                      \* 95
+  D("<class>", "other", FALSE, FALSE),                                         \* 96
+  D("<decimal1.5>", "other", FALSE, FALSE),                                    \* 97
+  D("<decimal2020>", "other", FALSE, FALSE),                                   \* 98
+  D("<ellipsis>", "other", FALSE, FALSE),                                      \* 99
+  D("<emptyiter>", "other", FALSE, FALSE),                                     \* 100
+  D("<emptyset>", "other", FALSE, FALSE),                                      \* 101
+  D("<fraction1>", "other", FALSE, FALSE),                                     \* 102
+  D("<fraction1/2>", "other", FALSE, FALSE),                                   \* 103
+  D("<frozenset>", "other", FALSE, FALSE),                                     \* 104
+  D("<function>", "other", FALSE, FALSE),                                      \* 105
+  D("<iter>", "other", FALSE, FALSE),                                          \* 106
+  D("<pending>", "other", FALSE, FALSE),                                       \* 107
+  D("<range0>", "other", FALSE, FALSE),                                        \* 108
+  D("<recordstub>", "other", FALSE, FALSE),                                    \* 109
+  D("<reflookup>", "other", FALSE, FALSE),                                     \* 110
+  D("<setstr>", "other", FALSE, FALSE),                                        \* 111
+  D("<strnotstr>", "other", FALSE, FALSE),                                     \* 112
+  D("<time>", "other", FALSE, FALSE),                                          \* 113
+  D("<timedelta>", "other", FALSE, FALSE),                                     \* 114
+  D("<unmarshallable>", "other", FALSE, FALSE)                                 \* 115
 >>
 
 \* elements of the enumerated lists / tuples:
